@@ -104,6 +104,10 @@ type Case struct {
 	Rseed uint64 `json:"rseed,omitempty"`
 	W     int    `json:"w,omitempty"`
 	KO    int    `json:"ko,omitempty"`
+	// round 5: option rows (options.go): routine, option bits, Submatrix mask (empty: option not passed)
+	R   int   `json:"r,omitempty"`
+	Opt int   `json:"opt,omitempty"`
+	Msk []int `json:"msk,omitempty"`
 }
 
 func (c *Case) etFast() int {
@@ -922,6 +926,12 @@ func writeCase(rn *runner, c *Case) {
 		rn.eqCase(c)
 	case "Jac", "Hes":
 		rn.helperCase(c)
+	case "O":
+		rn.optCase(c)
+	case "OD":
+		rn.optDerivCase(c)
+	case "Disp":
+		rn.dispCase(c)
 	case "R", "RD": // InSitu reuse: decided by the implementation-level oracle (--extra hunt) only
 		rn.w.Count(c.Kind + ":handed to the oracle")
 	default:
@@ -1012,6 +1022,9 @@ func generate(rng *Rng, n int, tier string) []*Case {
 	}
 	// ---- round 2: recycled InSitu buffers / in-place calls, 32 bit element types, right-hand-side patterns
 	cs = append(cs, generateRound2(rng, n)...)
+	// ---- round 5: the dispatch tables from the source, every option row group x InSitu mode x width
+	cs = append(cs, &Case{Kind: "Disp", R: RChol}, &Case{Kind: "Disp", R: RGJ})
+	cs = append(cs, generateOptions(rng, n)...)
 	// ---- routines without a closed model: Real64 values = Float64 values
 	ne := n / 10
 	for i := 0; i < ne; i++ {
@@ -1027,7 +1040,7 @@ func generate(rng *Rng, n int, tier string) []*Case {
 
 // ---------------------------------------------------------------- main
 
-const header = "From Coq Require Import List ZArith QArith Floats.\nFrom ADV Require Import C06.Corr.\nImport ListNotations.\nOpen Scope Z_scope.\nOpen Scope nat_scope.\n"
+const header = "From Coq Require Import List ZArith QArith Floats.\nFrom Coq Require String.\nImport String.StringSyntax.\nFrom ADV Require Import C06.ModelOpt C06.Corr.\nImport ListNotations.\nOpen Scope string_scope.\nOpen Scope Z_scope.\nOpen Scope nat_scope.\n"
 
 func loadCorpus(path string) []*Case {
 	var cs []*Case
